@@ -1053,7 +1053,8 @@ class AstEval:
         else:
             for arg1 in arg.orelse:
                 val = await self.aeval(arg1)
-                if isinstance(val, EvalReturn):
+                if isinstance(val, EvalStopFlow):
+                    # break / continue in the else clause belong to the enclosing loop
                     return val
         return None
 
@@ -1075,7 +1076,8 @@ class AstEval:
         else:
             for arg1 in arg.orelse:
                 val = await self.aeval(arg1)
-                if isinstance(val, EvalReturn):
+                if isinstance(val, EvalStopFlow):
+                    # break / continue in the else clause belong to the enclosing loop
                     return val
         return None
 
